@@ -86,7 +86,7 @@ def run(tier):
             if pos == "alone":
                 contexts += [tuple(p) for p in parents.get(t, [])]
             for ctxp in contexts:
-                conc = faults.ValidRenderer(seed)
+                conc = faults.ValidRenderer(seed, avoid_quote="\"")   # strings containing the output quote are outside the guarantee
                 acts = concretise.with_root(copy.deepcopy(h), t)
                 if t == "layer" and slot[1] != "type":
                     acts.insert(1, {"a": "attr", "key": "type", "kc": "U", "val": {"sh": "enum", "w": "point", "cs": "U"}})
